@@ -6,4 +6,10 @@
 pub mod util;
 
 #[cfg(kani)]
+mod c07;
+#[cfg(kani)]
+mod c13;
+#[cfg(kani)]
 mod c16;
+#[cfg(kani)]
+mod probe;
